@@ -283,6 +283,18 @@ int main(int argc, char **argv) {
       args.push_back(json::Object{{"id", id}, {"ty", tyStr(A.getType())}});
     }
     fo["args"] = std::move(args);
+    {
+      // promises made to the optimiser by source-level attributes (const / pure / returns_nonnull ...): the rules compare them with
+      // what the body really does
+      json::Array fa, ra;
+      if (F.doesNotAccessMemory()) fa.push_back("readnone");
+      else if (F.onlyReadsMemory()) fa.push_back("readonly");
+      if (F.hasFnAttribute(Attribute::NoReturn)) fa.push_back("noreturn");
+      if (F.hasRetAttribute(Attribute::NonNull)) ra.push_back("nonnull");
+      if (F.hasRetAttribute(Attribute::NoAlias)) ra.push_back("noalias");
+      fo["fattrs"] = std::move(fa);
+      fo["rattrs"] = std::move(ra);
+    }
     if (auto *SP = F.getSubprogram()) {
       fo["file"] = SP->getFilename().str();
       fo["line"] = (int64_t)SP->getLine();
